@@ -301,6 +301,9 @@ if case.startswith('sorted_'):
     ent = gent if gm else sites
     thu = geom(ent, gm, sort=False); th, inds = geom(ent, gm, sort=True, return_index=True)
     if sorted(inds.tolist()) != list(range(n)): bad.append('perm')
+    for nm, g in (('unsorted', thu), ('sorted', th)):
+        for k in g:
+            if len(g[k]) != n: bad.append(f'{{nm}} geometry: {{k}} has {{len(g[k])}} entries for {{n}} recorded sites')
     for k in th:
         if not np.array_equal(th[k], thu[k][inds]): bad.append('joint ' + k)
     keys = [(th['shank'][i], th['row'][i], -th['col'][i]) for i in range(n)]
@@ -326,6 +329,7 @@ else:
         keep = np.where(gp['shank'] == sh)[0]
         for k in ('x', 'y', 'row', 'col', 'shank', 'adc', 'sample_shift'):
             if not np.array_equal(gc[k], gp[k][keep]): bad.append(f'split {{k}} sorted={{srt}}')
+        if not srt and gc['ind'].tolist() != list(range(len(keep))): bad.append(f"split file: 'ind' is {{gc['ind'].tolist()}}, not the position within the split file")
     gp = geom(sites, False, sort=False); hs = neuropixel.split_trace_header(gp, shank=sh); keep = np.where(gp['shank'] == sh)[0]
     for k in ('x', 'y', 'row', 'col', 'ind'):
         if not np.array_equal(hs[k], gp[k][keep]): bad.append('split_trace_header ' + k)
